@@ -125,9 +125,8 @@ def plan_pairs(tier, seed):
             pr("u8", "U2", "hi", "all", "structural", "structural", threads=16, all_roots=True),
             pr("u32", "U2", "lo", "whole", "structural", "structural", threads=8),
             pr("u16", "U3half", "hi", "whole", "structural", "structural", threads=16),
-            pr("u8", "U3half", "hi", "all", "canonical", "structural", threads=16),
-            pr("u8", "U3half", "hi", "all", "structural", "canonical", threads=16),
-            pr("Ipv4Net", "U3", "hi", "all", "canonical", "canonical", threads=16, a_mod=8, a_rem=seed % 8),
+            pr("u8", "U3half", "hi", "all", "canonical", "canonical", threads=16),
+            pr("Ipv4Net", "U3half", "lo", "whole", "canonical", "structural", threads=16),
         ]
     return {"runs": runs, "jobs": 4 if tier == "quick" else 2,
             "rule": "pair engine: every ordered pair (a, b) of the listed reachable-state sets of real PrefixMaps/PrefixSets and every pair of view roots is evaluated with all eight set operations "
